@@ -4201,12 +4201,11 @@ fn get_arg_type(s: &str, quoted: bool) -> ArgType {
         }
         prevc = Some(c)
     }
-    if numeric {
-        if foundperiod {
-            ArgType::Float
-        } else {
-            ArgType::Integer
-        }
+    if numeric && foundperiod && s.parse::<f64>().is_ok() {
+        ArgType::Float
+    } else if numeric && !foundperiod && s.parse::<isize>().is_ok() {
+        //(a lone "-" or an integer that does not fit is not an integer literal)
+        ArgType::Integer
     } else {
         match s {
             "null" => ArgType::Null,
